@@ -37,7 +37,7 @@ func writeVocab(repo, verif string) error {
 		if fn == nil || fn.Decl.Body == nil {
 			continue
 		}
-		e := an.SnapshotOf(fn.Pkg.TypesInfo, fn.Decl.Body)
+		e := an.SnapshotOf(fn.Pkg.TypesInfo, fn.Decl.Recv, fn.Decl.Type, fn.Decl.Body)
 		if len(e) > 0 {
 			snap[name] = e
 		}
